@@ -299,4 +299,13 @@ theorem deOne_serPrim (e : BEnv) (p : PVal) (h : pvalType p ≠ .qname) :
     | false => simp [deOne, serPrim, pvalType, strip_false]
   | qname t => exact absurd rfl h
 
+theorem mapM_congr_except {α β} {f g : α → Except Err β} :
+    ∀ (xs : List α), (∀ x ∈ xs, f x = g x) → xs.mapM f = xs.mapM g := by
+  intro xs
+  induction xs with
+  | nil => intro _; rfl
+  | cons x t ih =>
+    intro h
+    rw [List.mapM_cons, List.mapM_cons, h x (List.mem_cons_self ..), ih (fun y hy => h y (List.mem_cons_of_mem _ hy))]
+
 end Proofs.C04
